@@ -183,6 +183,36 @@ func runC15(c *Ctx) {
 			}
 		}
 		c.Check(nd == 0, "C15.4-grow-only", "settingsstate.State.DeletedIds|never deleted from", "-", "no delete()/clear() on State.DeletedIds anywhere in the repository")
+		// the derived state is REPLACED by a snapshot's content only for the change the iteration
+		// starts from (the tree root); any other record — snapshot-carrying or not — is merged.
+		// Replacing on a later record discards deletions of concurrent records iterated before it.
+		{
+			pc := p.Func("commonspace/settings/settingsstate:(*stateBuilder).processChange")
+			c.Fn(FuncName(pc))
+			fromSnap := p.Func("commonspace/settings/settingsstate:NewStateFromSnapshot")
+			chId := p.Field(otPkg + ":Change.Id")
+			var rootParam ssa.Value
+			for _, pm := range pc.Params {
+				if pm.Name() == "rootId" {
+					rootParam = pm
+				}
+			}
+			isRoot := GCmp("change.Id == rootId", func(a Atom) (bool, bool) {
+				if (a.Op != token.EQL && a.Op != token.NEQ) || rootParam == nil {
+					return false, false
+				}
+				if (IsLoadOfField(a.X, chId) && a.Y == rootParam) || (IsLoadOfField(a.Y, chId) && a.X == rootParam) {
+					return true, a.Op == token.EQL
+				}
+				return false, false
+			})
+			sinks := CallSinks(pc, CalleeFn(fromSnap), false)
+			if len(sinks) == 0 {
+				c.Hold("C15.4-replace-only-at-root", FuncName(pc)+"|NewStateFromSnapshot", p.Pos(pc.Pos()), "processChange never replaces the state")
+			} else {
+				c.RequireGate("C15.4-replace-only-at-root", pc, isRoot, sinks, "state replaced by a snapshot (NewStateFromSnapshot)")
+			}
+		}
 		deleted := p.Field(dsPkg + ":objectDeletionState.deleted")
 		queuedF := p.Field(dsPkg + ":objectDeletionState.queued")
 		nd = 0
